@@ -64,6 +64,19 @@ def run(tier, seed, replay=None):
     for sa, sb, forced in todo:
         pd = len(sa['bases'])
         a, b = O.make_impl(sa), O.make_impl(sb)
+        if not forced and rng.random() < 0.25:
+            # the seam knot of a periodic direction inserted once more in one operand (its multiplicity at the seam then differs
+            # from the other operand's): the common knot vector must take the larger multiplicity there, once
+            for d_, (ba_, bb_) in enumerate(zip(sa['bases'], sb['bases'])):
+                if ba_['periodic'] >= 0 and bb_['periodic'] >= 0 and O.nfun(ba_) >= ba_['order'] + ba_['periodic'] + 1 and O.nfun(bb_) >= bb_['order'] + bb_['periodic'] + 1:
+                    tgt_, bt_ = (a, ba_) if rng.random() < 0.5 else (b, bb_)
+                    st_ = O.domain(bt_)[0]
+                    if sum(1 for x_ in bt_['knots'] if x_ == st_) + 1 > bt_['order'] - 2:
+                        continue        # keep the object C1 across the seam (order elevation of less smooth objects: the C05 findings)
+                    try:
+                        tgt_.insert_knot(float(O.domain(bt_)[0]), d_)
+                    except Exception:  # noqa
+                        pass
         pa, pb = O.snapshot(a), O.snapshot(b)
         if forced:
             op, direction = forced['op'], forced['direction']
